@@ -31,6 +31,10 @@ def edit_cases():
         b7 = copy.deepcopy(base)
         b7["teams"][0]["workers"].append(b7["teams"][1]["workers"].pop(0))
         out.append((base, b7, "move-worker"))
+        b9a, b9b = copy.deepcopy(base), copy.deepcopy(base)
+        b9a["teams"][0]["workers"][0]["absence"] = [0]
+        b9b["teams"][0]["workers"][0]["absence"] = [1]
+        out.append((b9a, b9b, "worker-absence-move"))  # a day off moved: same list object, same length, other step
         if not any(j == 2 for _, j, _ in links):
             b8 = copy.deepcopy(base)
             b8["links"] = list(links) + [[0, 2, "FS"]]
@@ -52,6 +56,8 @@ def apply_edit(m, name):
         m.byname["W1"].solo_working = True
     elif name == "worker-absence-inplace":
         m.byname["W0"].absence_time_list.append(1)
+    elif name == "worker-absence-move":
+        m.byname["W0"].absence_time_list[0] = 1
     elif name == "move-worker":
         w = m.byname["W1"]
         m.byname["TM1"].worker_list.remove(w)
